@@ -79,6 +79,9 @@ pub struct Run<'a> {
     pub tmpdir: Option<&'a Path>,
     /// shrink the stdout pipe to this many bytes (the child then blocks in write until we read)
     pub stdout_pipe_size: Option<usize>,
+    /// deliver stdin in writes of this many bytes with a short pause in between (a slow producer: the tool's reads
+    /// return less than it asked for)
+    pub stdin_chunk: Option<usize>,
 }
 impl<'a> Run<'a> {
     pub fn new<S: AsRef<str>>(args: &[S]) -> Self {
@@ -90,7 +93,12 @@ impl<'a> Run<'a> {
             close_stdout_after: None,
             tmpdir: None,
             stdout_pipe_size: None,
+            stdin_chunk: None,
         }
+    }
+    pub fn stdin_chunk(mut self, n: usize) -> Self {
+        self.stdin_chunk = Some(n.max(1));
+        self
     }
     pub fn stdin(mut self, b: &'a [u8]) -> Self {
         self.stdin = Some(b);
@@ -138,8 +146,22 @@ impl<'a> Run<'a> {
         if let Some(data) = self.stdin {
             let mut si = child.stdin.take().unwrap();
             let data = data.to_vec();
+            let chunk = self.stdin_chunk;
             stdin_thread = Some(std::thread::spawn(move || {
-                let _ = si.write_all(&data);
+                match chunk {
+                    None => {
+                        let _ = si.write_all(&data);
+                    }
+                    Some(n) => {
+                        for c in data.chunks(n) {
+                            if si.write_all(c).is_err() {
+                                break;
+                            }
+                            let _ = si.flush();
+                            std::thread::sleep(Duration::from_micros(400));
+                        }
+                    }
+                }
                 drop(si);
             }));
         }
